@@ -163,6 +163,13 @@ int main(void) {
             trlen = 0; tr[0] = 0;
             if (QV_TRY(wd)) {
                 qaconf_t *conf = qaconf();
+                if (op[2] == 'r' && no >= 2) {
+                    /* the re-used-object variant also registers its option table in two calls (core + module tables) */
+                    static qaconf_option_t part[MAXOPT + 1]; int h = no / 2;
+                    memcpy(part, opts, h * sizeof opts[0]); memset(&part[h], 0, sizeof part[h]);
+                    conf->addoptions(conf, part);
+                    conf->addoptions(conf, opts + h);
+                } else
                 conf->addoptions(conf, opts);
                 if (usedef) conf->setdefhandler(conf, cb_def);
                 int ret = conf->parse(conf, tmppath, (uint8_t)flags);
